@@ -1,13 +1,33 @@
-import Xp.Model.C19
+import Xp.Proofs.C19Final
 import Xp.Gen.C19
 /-
-C19 property theorems (work in progress: table obligations first).
+C19 — an in-use resource cannot be deleted; protection ends exactly when use ends.
+
+The system (`Xp/Model/C19.lean`) is a small-step machine: the state is the API
+server's store plus the in-flight Usage reconciles; an `Action` is a user
+create/delete of a Usage or a resource, a delete request (which passes through the
+admission webhook when the object carries the in-use label), a Kubernetes GC step,
+the start of a reconcile, or ONE API call of a reconcile under a fault outcome
+(ok / server error / conflict / crash before / crash after). A `List Action` is
+therefore an arbitrary interleaving together with an arbitrary fault plan, and the
+theorems quantify over all of them.
+
+Hypotheses that appear in statements:
+* `listFresh as` — every Usage List in the schedule (reconciler and webhook) returns
+  the current index. Informer-cache staleness is outside the property's quantifier.
+* `Sys.init 1` — MaxConcurrentReconciles = 1 for the Usage controller. The marker
+  clauses are FALSE for two overlapping reconciles of Usages of the same resource
+  (`marker_fails_with_two_workers`, defect D16 of the unchanged tree); everything
+  else is proved for every `maxc`.
 -/
 namespace Xp.C19
 
+/-! ### obligations tying the model to tables regenerated from the source -/
+
 /-- The index value the webhook computes for an object (`IndexValueForObject`) and the one the
-field indexer computes for a Usage referring to that object are both the model's `indexValue`,
-on the whole probe universe (all versions of a group, core group, malformed apiVersions). -/
+field indexer registered by `SetupWebhookWithManager` computes for a Usage referring to that
+object are both the model's `indexValue`, on the whole probe universe (all versions of a group,
+the core group, empty and malformed apiVersions, dotted names). -/
 theorem index_key_shared_table :
     Xp.Gen.c19IndexProbe.all (fun (av, kind, name, obj, us) =>
       obj == indexValue av kind name && us == [indexValue av kind name]) = true := by decide
@@ -25,5 +45,440 @@ theorem hook_config_table :
     Xp.Gen.c19InUseLabelKey = inUseLabelKey ∧
     Xp.Gen.c19HookOperations = ["DELETE"] ∧ Xp.Gen.c19HookGroups = ["*"] ∧
     Xp.Gen.c19HookFailClosed = true ∧ Xp.Gen.c19HookPathServed = true := by decide
+
+/-- the index key depends on the API group only, never on the version -/
+theorem index_key_version_independent (av av' kind name : String) (h : groupOf av = groupOf av') :
+    indexValue av kind name = indexValue av' kind name := by
+  simp [indexValue, h]
+
+/-! ### marker invariant (MaxConcurrentReconciles = 1) -/
+
+/-- **marker_while_ready.** In every state reachable by any schedule and fault plan, every Usage
+that is ready and whose deletion has not been requested has its used resource in the store,
+carrying the in-use label. -/
+theorem marker_while_ready (as : List Action) (hfresh : listFresh as) :
+    ∀ u ∈ ((Sys.init 1).run as).store.usages, u.ready = true → u.deleting = false →
+      (∃ r ∈ ((Sys.init 1).run as).store.res, u.names r = true) ∧
+      ∀ r ∈ ((Sys.init 1).run as).store.res, u.names r = true → r.inUse = true :=
+  fun u hu hr hd => (SerialInv.init.run as hfresh).marker u hu hr hd
+
+/-- **marker_before_ready.** Whatever action makes a Usage ready (no Usage of that name was ready
+before it), the in-use label was on the used resource already in the state BEFORE that action:
+the marker is put before the Usage reports ready. -/
+theorem marker_before_ready (as : List Action) (a : Action) (hfresh : listFresh (as ++ [a])) :
+    ∀ u' ∈ (((Sys.init 1).run as).exec a).1.store.usages, u'.ready = true →
+      (∀ u ∈ ((Sys.init 1).run as).store.usages, u.name = u'.name → u.ready = false) →
+      (∃ r ∈ ((Sys.init 1).run as).store.res, u'.names r = true) ∧
+      ∀ r ∈ ((Sys.init 1).run as).store.res, u'.names r = true → r.inUse = true := by
+  have hpre : SerialInv ((Sys.init 1).run as) :=
+    SerialInv.init.run as (fun b hb => hfresh b (List.mem_append_left _ hb))
+  have hfa : a.fresh = true := hfresh a (List.mem_append_right _ List.mem_cons_self)
+  generalize (Sys.init 1).run as = pre at hpre
+  intro u' hu' hr hnone
+  have old : u' ∈ pre.store.usages → False := fun h => by
+    have := hnone u' h rfl; rw [hr] at this; cases this
+  have from_ : ((∃ y ∈ pre.store.usages, y.name = u'.name ∧ y.of = u'.of ∧ y.ready = u'.ready) ∨ u'.ready = false) →
+      False := by
+    rintro (⟨y, hy, hn, _, hrd⟩ | h)
+    · have := hnone y hy hn; rw [hrd, hr] at this; cases this
+    · rw [hr] at h; cases h
+  cases a with
+  | cr g k n l iu c =>
+    exact (old (by rw [← (SameUsages.createRes pre.store g k n l iu c).usages]; exact hu')).elim
+  | cu n o b r c ct => exact (from_ (createUsage_from _ n o b r c ct u' hu')).elim
+  | du n => exact (from_ (deleteUsage_from _ n u' hu')).elim
+  | dr g k n p lo po st =>
+    exact (old (by rw [← (SameUsages.deleteRes pre.store g k n p lo po st).usages]; exact hu')).elim
+  | gcU n => exact (from_ (gcUsage_from _ n u' hu')).elim
+  | gcR g k n => exact (old (by rw [← (SameUsages.gcRes pre.store g k n).usages]; exact hu')).elim
+  | start n =>
+    refine (old ?_).elim
+    simp only [Sys.exec] at hu'
+    split at hu'
+    · exact hu'
+    · split at hu' <;> exact hu'
+  | step n o st =>
+    have hst : st = none := by
+      cases st with
+      | none => rfl
+      | some _ => simp [Action.fresh] at hfa
+    subst hst
+    rw [step_store] at hu'
+    split at hu'
+    · exact (old hu').elim
+    · next t hsome =>
+      obtain ⟨htm, _⟩ := thread?_some hsome
+      have key := exec_newly_ready (hpre.base.threads t htm) (hpre.facts t htm)
+      have fin : ∀ y' ∈ (pre.store.exec t.request).1.usages, y'.ready = true → y' = u' →
+          (∃ r ∈ pre.store.res, u'.names r = true) ∧ ∀ r ∈ pre.store.res, u'.names r = true → r.inUse = true := by
+        intro y' hy' hyr he
+        subst he
+        rcases key y' hy' hyr with ⟨y, hy, hn, hyr'⟩ | hl
+        · have := hnone y hy hn; rw [hyr'] at this; cases this
+        · exact hl
+      unfold Thread.step at hu'
+      cases o with
+      | ok => exact fin u' hu' hr rfl
+      | crashAfter => exact fin u' hu' hr rfl
+      | fail => exact (old hu').elim
+      | conflict => exact (old hu').elim
+      | crashBefore => exact (old hu').elim
+
+/-! ### admission: refused iff some Usage is indexed under the object's key -/
+
+/-- **delete_refused.** For a DELETE of a stored object carrying the in-use label (so the webhook
+is consulted), with a fresh List and no API fault: the request is denied iff some Usage is indexed
+under the object's key; and when it is denied the object stays, keeps the label, and carries the
+deletion-attempt annotation with the request's propagation policy (default Background). -/
+theorem delete_refused (s : Store) (g k n p : String) (r : Res)
+    (hg : s.getR g k n = some r) (hin : r.inUse = true) :
+    ((s.deleteRes g k n p true true none).2 = .done true .denied ↔
+      ∃ u ∈ s.usages, u.indexedBy (indexKey g k n) = true) ∧
+    ((s.deleteRes g k n p true true none).2 = .done true .denied →
+      ∃ r', (s.deleteRes g k n p true true none).1.getR g k n = some r' ∧
+        r'.attempt = some (effPolicy p) ∧ r'.inUse = true) := by
+  obtain ⟨hrm, rfl, rfl, rfl⟩ := getR_some hg
+  have spec := deleteRes_spec s r.group r.kind r.name p true true none
+  generalize (s.deleteRes r.group r.kind r.name p true true none).1 = s' at spec ⊢
+  generalize (s.deleteRes r.group r.kind r.name p true true none).2 = res at spec ⊢
+  cases spec with
+  | notFound hg' => rw [hg] at hg'; cases hg'
+  | unlabelled r0 hg' hin' => rw [hg] at hg'; cases hg'; rw [hin] at hin'; cases hin'
+  | refused r0 v hg' _ hv hne =>
+    rw [hg] at hg'; cases hg'
+    have a := admitDelete_spec s r p true true none
+    have hok := admitDelete_ok s r p none
+    rw [hv] at a hok
+    simp only [Option.getD_none] at a
+    generalize (s.admitDelete r p true true none).1 = s1 at a ⊢
+    cases a with
+    | listFailed => exact absurd rfl hok
+    | patchFailed _ _ => exact absurd rfl hok
+    | allowed _ => exact absurd rfl hne
+    | deniedRecorded hn ha =>
+      exact ⟨⟨fun _ => countU_pos.mp hn, fun _ => rfl⟩, fun _ => ⟨r, hg, ha, hin⟩⟩
+    | deniedPatched hn ha =>
+      refine ⟨⟨fun _ => countU_pos.mp hn, fun _ => rfl⟩, fun _ => ?_⟩
+      refine ⟨{ r with attempt := some (effPolicy p), rv := s.nextRv }, ?_, rfl, hin⟩
+      exact getR_putR_self (s := s) (n := { r with attempt := some (effPolicy p), rv := s.nextRv })
+        ⟨r, hrm, rfl, rfl, rfl⟩
+  | admitted r0 hg' _ hv =>
+    rw [hg] at hg'; cases hg'
+    have a := admitDelete_spec s r p true true none
+    rw [hv] at a
+    simp only [Option.getD_none] at a
+    generalize (s.admitDelete r p true true none).1 = s1 at a ⊢
+    cases a with
+    | allowed hn =>
+      have hz := countU_zero.mp hn
+      constructor
+      · constructor
+        · intro h; cases h
+        · intro h
+          obtain ⟨u, hu, hi⟩ := h
+          rw [hz u hu] at hi; cases hi
+      · intro h; cases h
+
+/-- whichever API version the request names (`reqAv`) and whichever version the Usage names: a
+Usage whose `spec.of` has the same group, kind and (resolved) name is indexed under the
+request's key -/
+theorem delete_refused_any_version (u : Usage) (reqAv kind name : String)
+    (hname : u.of.name ≠ "") (hg : groupOf u.of.av = groupOf reqAv) (hk : u.of.kind = kind)
+    (hn : u.of.name = name) : u.indexedBy (indexKey (groupOf reqAv) kind name) = true := by
+  simp only [Usage.indexedBy_iff, indexValue]
+  exact ⟨hname, by rw [hg, hk, hn]⟩
+
+/-- **delete_refused_while_ready** (end to end, MaxConcurrentReconciles = 1). In every reachable
+state, for a Usage that is ready and whose deletion has not been requested, every delete request
+for its used resource — any API version of the same group, any propagation policy, with or
+without faults of the webhook's own API calls — leaves the resource in the store, still labelled;
+without faults the answer is "denied" and the attempt is recorded. -/
+theorem delete_refused_while_ready (as : List Action) (hfresh : listFresh as)
+    (u : Usage) (hu : u ∈ ((Sys.init 1).run as).store.usages) (hr : u.ready = true) (hd : u.deleting = false)
+    (reqAv p : String) (lo po : Bool) (hgrp : groupOf reqAv = groupOf u.of.av) :
+    let s := ((Sys.init 1).run as).store
+    let res := s.deleteRes (groupOf reqAv) u.of.kind u.of.name p lo po none
+    ((∃ r ∈ res.1.res, u.names r = true) ∧ ∀ r ∈ res.1.res, u.names r = true → r.inUse = true) ∧
+    (lo = true → po = true → res.2 = .done true .denied ∧
+      ∃ r', res.1.getR (groupOf reqAv) u.of.kind u.of.name = some r' ∧ r'.attempt = some (effPolicy p)) := by
+  intro s res
+  have hinv := SerialInv.init.run as hfresh
+  have hl : Labelled s u := hinv.marker u hu hr hd
+  refine ⟨hl.deleteRes ⟨u, hu, rfl⟩ _ _ _ p lo po, ?_⟩
+  intro hlo hpo
+  subst hlo; subst hpo
+  obtain ⟨⟨r, hrm, hrn⟩, hall⟩ := hl
+  have hrn' := (Usage.names_iff u r).mp hrn
+  have hgsome : ∃ r0, s.getR (groupOf reqAv) u.of.kind u.of.name = some r0 := by
+    cases hg : s.getR (groupOf reqAv) u.of.kind u.of.name with
+    | some r0 => exact ⟨r0, rfl⟩
+    | none =>
+      exact absurd ⟨by rw [hgrp]; exact hrn'.2.1.symm, hrn'.2.2.1.symm, hrn'.2.2.2.symm⟩ (getR_none hg r hrm)
+  obtain ⟨r0, hg0⟩ := hgsome
+  have hr0 := getR_some hg0
+  have hn0 : u.names r0 = true := by
+    simp only [Usage.names_iff]
+    exact ⟨hrn'.1, by rw [hr0.2.1, hgrp], hr0.2.2.1.symm, hr0.2.2.2.symm⟩
+  have key := delete_refused s (groupOf reqAv) u.of.kind u.of.name p r0 hg0 (hall r0 hr0.1 hn0)
+  have hden := key.1.mpr ⟨u, hu, delete_refused_any_version u reqAv _ _ hrn'.1 hgrp.symm rfl rfl⟩
+  obtain ⟨r', h1, h2, _⟩ := key.2 hden
+  exact ⟨hden, r', h1, h2⟩
+
+/-- **delete_allowed_when_none.** When no Usage is indexed under the object's key, a delete
+request (fresh List, no fault) is allowed and the object is gone — whether or not it still
+carries the label. -/
+theorem delete_allowed_when_none (s : Store) (g k n p : String) (r : Res) (hg : s.getR g k n = some r)
+    (hnone : ∀ u ∈ s.usages, u.indexedBy (indexKey g k n) = false) :
+    (∃ hook, (s.deleteRes g k n p true true none).2 = .done hook .allowed) ∧
+    (s.deleteRes g k n p true true none).1.getR g k n = none := by
+  have hr := getR_some hg
+  have hkey : indexKey r.group r.kind r.name = indexKey g k n := by rw [hr.2.1, hr.2.2.1, hr.2.2.2]
+  have hzero : s.countU (indexKey g k n) = 0 := countU_zero.mpr hnone
+  have spec := deleteRes_spec s g k n p true true none
+  generalize (s.deleteRes g k n p true true none).1 = s' at spec ⊢
+  generalize (s.deleteRes g k n p true true none).2 = res at spec ⊢
+  cases spec with
+  | notFound hg' => rw [hg] at hg'; cases hg'
+  | unlabelled r0 hg' hin' => exact ⟨⟨false, rfl⟩, getR_dropR s g k n⟩
+  | refused r0 v hg' _ hv hne =>
+    exfalso
+    rw [hg] at hg'; cases hg'
+    have a := admitDelete_spec s r p true true none
+    have hok := admitDelete_ok s r p none
+    rw [hv] at a hok
+    simp only [Option.getD_none, hkey, hzero] at a
+    generalize (s.admitDelete r p true true none).1 = s1 at a
+    cases a with
+    | listFailed => exact hok rfl
+    | patchFailed h _ => exact absurd h (by omega)
+    | deniedRecorded h _ => exact absurd h (by omega)
+    | deniedPatched h _ => exact absurd h (by omega)
+    | allowed _ => exact hne rfl
+  | admitted r0 hg' _ hv => exact ⟨⟨true, rfl⟩, getR_dropR _ g k n⟩
+
+/-- the same in terms of "names": if no Usage names the object and the rendered index keys of the
+Usages present are separated from the object's (`hsep`; the rendering `group.kind.name` is not
+injective in general, see `index_key_not_injective`), the delete is allowed -/
+theorem delete_allowed_when_unnamed (s : Store) (g k n p : String) (r : Res) (hg : s.getR g k n = some r)
+    (hnone : ∀ u ∈ s.usages, u.names r = false)
+    (hsep : ∀ u ∈ s.usages, u.indexedBy (indexKey g k n) = true → u.names r = true) :
+    (∃ hook, (s.deleteRes g k n p true true none).2 = .done hook .allowed) ∧
+    (s.deleteRes g k n p true true none).1.getR g k n = none := by
+  refine delete_allowed_when_none s g k n p r hg (fun u hu => ?_)
+  cases hb : u.indexedBy (indexKey g k n) with
+  | false => rfl
+  | true => have := hsep u hu hb; rw [hnone u hu] at this; cases this
+
+/-- observation (not a violation of the property's refusal clauses): the rendered key is not
+injective, so a Usage of one resource can block the delete of another labelled resource -/
+theorem index_key_not_injective : indexKey "a" "b" "c.d" = indexKey "a.b" "c" "d" := by decide
+
+/-! ### the label is removed only with the last Usage -/
+
+/-- **removed_only_with_last.** For EVERY number of concurrent reconciles, schedule and fault plan:
+an action after which a stored resource no longer carries the label it carried before is one API
+call (the label-removing Update) of the reconcile of a Usage `n` such that, when that reconcile
+listed the Usages of the resource (`t.seen` is the store's Usages at that List), `n` named the
+resource, `n`'s deletion had been requested, and no other Usage named the resource. -/
+theorem removed_only_with_last (maxc : Nat) (as : List Action) (a : Action) (hfresh : listFresh (as ++ [a])) :
+    ∀ r ∈ ((Sys.init maxc).run as).store.res, r.inUse = true →
+    ∀ r' ∈ (((Sys.init maxc).run as).exec a).1.store.res,
+      r'.group = r.group → r'.kind = r.kind → r'.name = r.name → r'.inUse = false →
+      ∃ n o t used, a = .step n o none ∧ ((Sys.init maxc).run as).thread? n = some t ∧ t.pc = .dUnlabel used ∧
+        (∃ x ∈ t.seen, x.name = n ∧ x.deleting = true ∧ x.names r = true) ∧
+        (∀ y ∈ t.seen, y.names r = true → y.name = n) := by
+  have hpre : SysInv ((Sys.init maxc).run as) :=
+    (SysInv.init maxc).run as (fun b hb => hfresh b (List.mem_append_left _ hb))
+  have hfa : a.fresh = true := hfresh a (List.mem_append_right _ List.mem_cons_self)
+  generalize (Sys.init maxc).run as = pre at hpre
+  intro r hr hin r' hr' h1 h2 h3 hno
+  have old : r' ∈ pre.store.res → False := fun h => by
+    have := hpre.store.resUniq r' h r hr h1 h2 h3
+    rw [this, hin] at hno; cases hno
+  have from_ : (r' ∈ pre.store.res ∨ ∃ x ∈ pre.store.res,
+      x.group = r'.group ∧ x.kind = r'.kind ∧ x.name = r'.name ∧ x.inUse = r'.inUse) → False := by
+    rintro (h | ⟨x, hx, e1, e2, e3, e4⟩)
+    · exact old h
+    · have := hpre.store.resUniq x hx r hr (e1.trans h1) (e2.trans h2) (e3.trans h3)
+      rw [this, hin, hno] at e4; cases e4
+  cases a with
+  | cr g k n l iu c =>
+    rcases createRes_res_from _ g k n l iu c r' hr' with h | h
+    · exact (old h).elim
+    · exact absurd ⟨h1.symm, h2.symm, h3.symm⟩ (h r hr)
+  | cu n o b rs c ct => exact (old (by rw [← createUsage_res pre.store n o b rs c ct]; exact hr')).elim
+  | du n => exact (old (by rw [← deleteUsage_res pre.store n]; exact hr')).elim
+  | dr g k n p lo po st => exact (from_ (deleteRes_res_from _ g k n p lo po st r' hr')).elim
+  | gcU n => exact (old (by rw [← gcUsage_res pre.store n]; exact hr')).elim
+  | gcR g k n => exact (from_ (gcRes_res_from _ g k n r' hr')).elim
+  | start n =>
+    refine (old ?_).elim
+    simp only [Sys.exec] at hr'
+    split at hr'
+    · exact hr'
+    · split at hr' <;> exact hr'
+  | step n o st =>
+    have hst : st = none := by
+      cases st with
+      | none => rfl
+      | some _ => simp [Action.fresh] at hfa
+    subst hst
+    rw [step_store] at hr'
+    split at hr'
+    · exact (old hr').elim
+    · next t hsome =>
+      obtain ⟨htm, htn⟩ := thread?_some hsome
+      have fin : r' ∈ (pre.store.exec t.request).1.res →
+          ∃ n' o' t' used, Action.step n o none = .step n' o' none ∧ pre.thread? n' = some t' ∧ t'.pc = .dUnlabel used ∧
+            (∃ x ∈ t'.seen, x.name = n' ∧ x.deleting = true ∧ x.names r = true) ∧
+            (∀ y ∈ t'.seen, y.names r = true → y.name = n') := fun hmem => by
+        obtain ⟨used, hpc, hst⟩ := exec_unlabel hpre.store (t := t) r hr hin r' hmem h1 h2 h3 hno
+        refine ⟨n, o, t, used, rfl, hsome, hpc, ?_⟩
+        -- the new resource is `used` with the label removed: `r` has `used`'s key
+        rw [hst] at hmem
+        have hk : used.group = r.group ∧ used.kind = r.kind ∧ used.name = r.name := by
+          rcases updR_res_from _ _ r' hmem with h | _
+          · exact (old h).elim
+          · have spec := updR_spec pre.store { used with inUse := false }
+            generalize (pre.store.updR { used with inUse := false }).1 = s1 at spec hmem
+            generalize (pre.store.updR { used with inUse := false }).2 = rp at spec
+            cases spec with
+            | notFound _ => exact (old hmem).elim
+            | conflict _ _ _ => exact (old hmem).elim
+            | noop _ _ _ _ => exact (old hmem).elim
+            | put x hg hx =>
+              rw [bump_res] at hmem
+              rcases mem_putR.mp hmem with ⟨h, _⟩ | ⟨rfl, _⟩
+              · exact (old h).elim
+              · exact ⟨h1, h2, h3⟩
+        rcases hpre.threads t htm with hget | ⟨hb, hf⟩
+        · rw [hpc] at hget; cases hget
+        · unfold PcFacts at hf
+          rw [hpc] at hf
+          obtain ⟨_, hne, huk, hseen⟩ := hf
+          have hkeyr : groupOf t.u.of.av = r.group ∧ t.u.of.kind = r.kind ∧ t.u.of.name = r.name :=
+            ⟨huk.1.symm.trans hk.1, huk.2.1.symm.trans hk.2.1, huk.2.2.symm.trans hk.2.2⟩
+          constructor
+          · obtain ⟨x, hx, hxn, hxd, hxo⟩ := hseen.self
+            refine ⟨x, hx, hxn.trans htn, hxd, ?_⟩
+            simp only [Usage.names_iff]
+            rw [hxo]
+            exact ⟨hne, hkeyr⟩
+          · intro y hy hyn
+            have hyi := names_indexedBy hyn
+            have : indexKey r.group r.kind r.name = indexValue t.u.of.av t.u.of.kind t.u.of.name := by
+              simp only [indexValue]
+              rw [hkeyr.1, hkeyr.2.1, hkeyr.2.2]
+            rw [this] at hyi
+            exact (hseen.only y hy hyi).trans htn
+      unfold Thread.step at hr'
+      cases o with
+      | ok => exact fin hr'
+      | crashAfter => exact fin hr'
+      | fail => exact (old hr').elim
+      | conflict => exact (old hr').elim
+      | crashBefore => exact (old hr').elim
+
+/-- the removal is an rv-checked write: the label-removing Update changes the store only if the
+resourceVersion the reconcile read is still the stored one -/
+theorem removal_rv_checked (s : Store) (used x : Res)
+    (hg : s.getR used.group used.kind used.name = some x) (hrv : x.rv ≠ used.rv) :
+    (s.updR { used with inUse := false }).1 = s := by
+  unfold Store.updR
+  simp only [hg, hrv, ne_eq, not_false_eq_true, if_true]
+
+/-! ### a Usage by a resource is owned by that resource -/
+
+/-- **owned_by_using.** For EVERY number of concurrent reconciles, schedule and fault plan: a
+ready Usage with `spec.by` carries an owner reference whose uid was assigned to a resource created
+under the group/kind/name `spec.by` refers to (`born` is the ghost record of creations). -/
+theorem owned_by_using (maxc : Nat) (as : List Action) (hfresh : listFresh as) :
+    ∀ u ∈ ((Sys.init maxc).run as).store.usages, u.ready = true → ∀ b, u.by_ = some b →
+      ∃ o ∈ u.owners, (o.uid, groupOf b.av, b.kind, b.name) ∈ ((Sys.init maxc).run as).store.born :=
+  ((SysInv.init maxc).run as hfresh).store.owned
+
+/-- deleting the user releases the used (Kubernetes GC half): once none of a Usage's owners is
+alive, the GC's visit requests its deletion — afterwards the Usage is gone or terminating, which
+is what lets its reconcile drop the label (`removed_only_with_last`). -/
+theorem gc_deletes_orphaned_usage (s : Store) (hs : StoreInv s) (nm : String) (x : Usage)
+    (hg : s.getU nm = some x) (hown : x.owners ≠ []) (hdead : ∀ o ∈ x.owners, s.alive o.uid = false) :
+    ∀ y ∈ (s.gcUsage nm).1.usages, y.name = nm → y.deleting = true := by
+  have hx := getU_some hg
+  have hany : (x.owners.any fun o => s.alive o.uid) = false := by
+    rw [List.any_eq_false]
+    intro o ho
+    simp [hdead o ho]
+  unfold Store.gcUsage
+  simp only [hg, hown, if_false, hany, Bool.false_eq_true]
+  unfold Store.deleteUsage
+  simp only [hg]
+  intro y hy hyn
+  split at hy
+  · split at hy
+    · next hdel =>
+      have : y = x := hs.usageUniq y hy x hx.1 (hyn.trans hx.2.symm)
+      rw [this]; exact hdel
+    · rw [bump_usages] at hy
+      rcases mem_putU.mp hy with ⟨_, hne⟩ | ⟨rfl, _⟩
+      · exact absurd (hyn.trans hx.2.symm) hne
+      · rfl
+  · exact absurd hyn (mem_dropU.mp hy).2
+
+/-! ### the marker clauses fail for two overlapping reconciles (defect D16) -/
+
+def raceThing : RSpec := ⟨"ex.org/v1", "Thing", "r0", none⟩
+
+/-- u0 ready on r0; u0 deleted; its reconcile gets as far as having listed the Usages of r0
+(only u0); u1 is created for r0 and fully reconciled (its label Update is a no-op, the
+resourceVersion of r0 does not move) and reports ready; u0's reconcile then removes the label. -/
+def raceSchedule : List Action := [
+  .cr "ex.org" "Thing" "r0" [] false "",
+  .cu "u0" raceThing none (some "a") false "",
+  .start "u0", .step "u0" .ok none, .step "u0" .ok none, .step "u0" .ok none, .step "u0" .ok none,
+  .step "u0" .ok none, .step "u0" .ok none,
+  .du "u0",
+  .start "u0", .step "u0" .ok none, .step "u0" .ok none, .step "u0" .ok none,
+  .cu "u1" raceThing none (some "b") false "",
+  .start "u1", .step "u1" .ok none, .step "u1" .ok none, .step "u1" .ok none, .step "u1" .ok none,
+  .step "u1" .ok none, .step "u1" .ok none,
+  .step "u0" .ok none, .step "u0" .ok none]
+
+def unmarked (s : Store) : Bool :=
+  s.usages.any fun u => u.ready && !u.deleting && s.res.any fun r => u.names r && !r.inUse
+
+/-- with MaxConcurrentReconciles = 2 the unchanged reconciler reaches a state in which a ready,
+not deleted Usage's used resource has lost the label, and the delete of that resource is allowed
+without the webhook being consulted -/
+theorem marker_fails_with_two_workers :
+    listFresh raceSchedule ∧
+    unmarked ((Sys.init 2).run raceSchedule).store = true ∧
+    (((Sys.init 2).run raceSchedule).store.deleteRes "ex.org" "Thing" "r0" "" true true none).2 =
+      .done false .allowed := by
+  refine ⟨?_, by decide, by decide⟩
+  intro a ha
+  simp only [raceSchedule, List.mem_cons, List.mem_nil_iff, or_false] at ha
+  rcases ha with rfl | rfl | rfl | rfl | rfl | rfl | rfl | rfl | rfl | rfl | rfl | rfl | rfl | rfl | rfl | rfl |
+    rfl | rfl | rfl | rfl | rfl | rfl | rfl | rfl <;> rfl
+
+/-- the same schedule with one worker never gets there (the second `start` is refused) -/
+example : unmarked ((Sys.init 1).run raceSchedule).store = false := by decide
+
+/-! ### the hypotheses are satisfiable by non-trivial states -/
+
+/-- a reachable state with a ready, labelled, protected Usage by selector with a using resource -/
+def demoSchedule : List Action := [
+  .cr "ex.org" "Thing" "r0" [("app", "db")] false "",
+  .cr "ex.org" "Other" "r1" [] false "",
+  .cu "u0" ⟨"ex.org/v1beta1", "Thing", "", some ⟨[("app", "db")], false⟩⟩ (some ⟨"ex.org/v1", "Other", "r1", none⟩) none false "",
+  .start "u0", .step "u0" .ok none, .step "u0" .ok none, .step "u0" .conflict none,
+  .start "u0", .step "u0" .ok none, .step "u0" .ok none, .step "u0" .ok none, .step "u0" .ok none,
+  .step "u0" .ok none, .step "u0" .ok none, .step "u0" .ok none, .step "u0" .ok none,
+  .step "u0" .ok none, .step "u0" .ok none]
+
+example : ((Sys.init 1).run demoSchedule).store.usages.any (fun u => u.ready && !u.deleting && u.owners != []) = true := by
+  decide
+
+example : (((Sys.init 1).run demoSchedule).store.deleteRes "ex.org" "Thing" "r0" "Foreground" true true none).2 =
+    .done true .denied := by decide
 
 end Xp.C19
